@@ -169,7 +169,8 @@ func (r *Runtime) arrayproto_pop(call FunctionCall) Value {
 func (r *Runtime) pushToStringStack(o *Object) bool {
 	// Check for circular reference in the toString stack
 	for _, obj := range r.toStringStack {
-		if o == obj {
+		// wrapped Go values get a new wrapper on every access: compare what they wrap
+		if o.StrictEquals(obj) {
 			// Circular reference detected
 			return true
 		}
